@@ -2,12 +2,12 @@ SPECIFICATION Spec
 CONSTANTS
   MarkRebased = TRUE
   AdvanceChecksFirst = TRUE
-  N = 5
-  MaxPre = 1
-  MaxOffered = 2
+  N = 6
+  MaxPre = 2
+  MaxOffered = 3
   MaxIntr = 1
-  ReqArgs = {0, 1, 3}
-  ChunkArgs = {1, 2}
+  ReqArgs = {0, 1, 2, 4}
+  ChunkArgs = {1, 2, 3}
   Chunk0 = 1
   Streams <- MCStreamsOk
 VIEW View
